@@ -327,6 +327,9 @@ func (fr *Frame) builtin(b *ssa.Builtin, cc *ssa.CallCommon, args []Val, resT ty
 			return r
 		}
 	case "append":
+		if one, ok := singleVarArg(cc); ok {
+			return fr.appendOne(args, fr.val(one, st), resT, st)
+		}
 		return fr.appendBuiltin(args, resT, st, reach)
 	case "copy":
 		return fr.copyBuiltin(args, resT, st)
@@ -695,4 +698,79 @@ func (c *FnCtx) havocAllBut(st *State, preserve []string, except map[string]bool
 	}
 	na := c.heapGet(st, "alloc", allocSort)
 	c.smt.assume(fmt.Sprintf("(forall ((r Int)) (! (=> (select %s r) (select %s r)) :pattern ((select %s r)) :pattern ((select %s r))))", oldAlloc, na, na, oldAlloc), "allocation only grows")
+}
+
+// singleVarArg recognises append(s, x): the compiler stores x into a fresh [1]T array and
+// appends the slice of it; returns the stored value.
+func singleVarArg(cc *ssa.CallCommon) (ssa.Value, bool) {
+	if len(cc.Args) != 2 {
+		return nil, false
+	}
+	sl, ok := cc.Args[1].(*ssa.Slice)
+	if !ok || sl.Low != nil || sl.High != nil || sl.Max != nil {
+		return nil, false
+	}
+	al, ok := sl.X.(*ssa.Alloc)
+	if !ok {
+		return nil, false
+	}
+	arr, ok := al.Type().(*types.Pointer).Elem().Underlying().(*types.Array)
+	if !ok || arr.Len() != 1 {
+		return nil, false
+	}
+	// the only uses of the array: one IndexAddr [0] with one Store, and this Slice
+	var stored ssa.Value
+	for _, ref := range *al.Referrers() {
+		switch r := ref.(type) {
+		case *ssa.IndexAddr:
+			for _, rr := range *r.Referrers() {
+				st, ok := rr.(*ssa.Store)
+				if !ok || st.Addr != r || stored != nil {
+					return nil, false
+				}
+				stored = st.Val
+			}
+		case *ssa.Slice:
+			if r != sl {
+				return nil, false
+			}
+		default:
+			return nil, false
+		}
+	}
+	if stored == nil {
+		return nil, false
+	}
+	return stored, true
+}
+
+// appendOne: append(s, v) without quantifiers on the in-place path.
+func (fr *Frame) appendOne(args []Val, v Val, resT types.Type, st *State) Val {
+	c := fr.c
+	s := c.termOf(args[0])
+	et := resT.Underlying().(*types.Slice).Elem()
+	es := c.sortOf(et)
+	name, sort := c.elemHeap(et)
+	h := c.heapGet(st, name, sort)
+	vt := c.termOf(v)
+	newLen := c.smt.define("aplen", "Int", app("+", app("sl_len", s), "1"))
+	inPlace := c.smt.define("apinplace", "Bool", and(app("<=", newLen, app("sl_cap", s)), not(eq(app("sl_base", s), "0"))))
+	nb := c.smt.declareFresh("new.append", "Int")
+	al := c.heapGet(st, "alloc", allocSort)
+	c.smt.assume(and(app(">", nb, "0"), not(sel(al, nb))), "fresh backing array")
+	ncap := c.smt.declareFresh("apcap", "Int")
+	c.smt.assume(and(app(">=", ncap, newLen), app("<=", ncap, "4611686018427387904")), "")
+	r := c.smt.define("ap", "Slice", ite(inPlace,
+		fmt.Sprintf("(mk_slice (sl_base %s) (sl_off %s) %s (sl_cap %s))", s, s, newLen, s),
+		fmt.Sprintf("(mk_slice %s 0 %s %s)", nb, newLen, ncap)))
+	oldArr := sel(h, app("sl_base", s))
+	// reallocation: the prefix is copied
+	arr := c.smt.declareFresh("aparr", "(Array Int "+es+")")
+	c.smt.assume(fmt.Sprintf("(forall ((i Int)) (! (=> (and (<= 0 i) (< i (sl_len %[1]s))) (= (select %[2]s i) (select %[3]s (+ (sl_off %[1]s) i)))) :pattern ((select %[2]s i))))", s, arr, oldArr), "append: contents")
+	c.smt.assume(eq(sel(arr, app("sl_len", s)), vt), "append: appended element")
+	c.heapSet(st, name, sort, ite(inPlace,
+		sto(h, app("sl_base", s), sto(oldArr, app("+", app("sl_off", s), app("sl_len", s)), vt)),
+		sto(h, nb, arr)))
+	c.heapSet(st, "alloc", allocSort, ite(inPlace, al, sto(al, nb, "true")))
+	return Val{T: resT, Term: r}
 }
